@@ -1306,6 +1306,10 @@ class C10(Machine):
                 pb.plan["meta"]["shared"] = True
             else:
                 tgt = oth
+            if tgt is sib and rng.random() < 0.4 and not pb.plan["meta"].get("late_sibling") and mode != 3:
+                # the sibling is (re)built only now, after the main object may already have worked
+                pb.step(c, k="make", slot=sib.obj, obj=sib.obj, name="make", tag="make", kind=sib.kind, cls=HIST)
+                pb.plan["meta"]["late_sibling"] = True
             tops = KINDS[tgt.kind][2]
             tnames = [n for n in sorted(tops) if (tops[n][0] not in (BAD, ABN)) or
                       (tops[n][0] == BAD and fk["bad_call"]) or (tops[n][0] == ABN and fk["abandon"])]
